@@ -25,7 +25,7 @@ def replace_node(node: _M, repl: _M) -> None:
         repl.reattach(token_store)
 
 
-def _check_detachable(values: Iterable[base.RawModel]) -> None:
+def check_detachable(values: Iterable[base.RawModel]) -> None:
     """Raises before anything is modified if any value cannot be detached."""
     for value in values:
         token_store = value.token_store
@@ -145,7 +145,7 @@ class RepeatedNodeWrapper(MutableSequence[_M]):
             separators_before_last: Optional[base.RawTokenModel] = None,
     ) -> None:
         values = list(values)
-        _check_detachable(values)
+        check_detachable(values)
         tokens: list[base.RawTokenModel] = []
         ref = self._prev_last(index)
         if length is None:
@@ -207,7 +207,7 @@ class RepeatedNodeWrapper(MutableSequence[_M]):
             return
         assert isinstance(value, Iterable)
         values = list(value)
-        _check_detachable(values)
+        check_detachable(values)
         r = indexes.range_from_index(index, len(self._repeated.items))
         separators_before_last = (
             self._repeated.token_store.get_prev(self._repeated.items[0].first_token)
